@@ -6,6 +6,56 @@ func init() {
 	vHarnesses["VerifC03Hunk"] = VerifC03Hunk
 	vHarnesses["VerifC03Sub"] = VerifC03Sub
 	vHarnesses["VerifC03Canary"] = VerifC03Canary
+	vHarnesses["VerifC03SubObj"] = VerifC03SubObj
+}
+
+// VerifC03SubObj: sub-sequences of the hunks of an object diff (members: absent / number /
+// small array / nested object) applied to a, b and perturbed targets (a key dropped, changed,
+// an array member shortened).
+func VerifC03SubObj() {
+	a, b := vObjDoc(0), vObjDoc(0)
+	if vKnown("hash.alias") {
+		vAssumeNoHashAlias(a, b)
+	}
+	d := a.Diff(b)
+	c := vClone(a).(jsonObject)
+	switch vChoice(5) {
+	case 0:
+	case 1:
+		c = vClone(b).(jsonObject)
+	case 2:
+		delete(c, "a")
+	case 3:
+		c["b"] = vNum()
+	default:
+		if arr, ok := c["a"].(jsonArray); ok && len(arr) > 0 {
+			c["a"] = arr[1:]
+		} else {
+			c["a"] = jsonArray{vNum()}
+		}
+	}
+	var kept Diff
+	for _, h := range d {
+		if vBool() {
+			kept = append(kept, h)
+		}
+	}
+	var want JsonNode = vClone(c)
+	wantOk := true
+	for _, h := range kept {
+		ok, r := refApplyStrict(want, h.Path, h.Before, h.Remove, h.Add, h.After)
+		if vOr(!ok, false) {
+			wantOk = false
+			break
+		}
+		want = r
+	}
+	p, err := vClone(c).Patch(kept)
+	vAssert((err == nil) == wantOk, "sub-diff of an object diff accepted/rejected against the reference semantics")
+	if err == nil {
+		vAssert(refEq(p, want, modeList, 0), "sub-diff of an object diff applied with a result other than the reference result")
+	}
+	vCover("c03.subobj")
 }
 
 // refListHunk: reference semantics of one strict list hunk at index i on array c
